@@ -153,7 +153,7 @@ Definition respond_ok (c : cfg) (r : req) : resp :=
         match b with
         | BSized ch => Responds ROk (Some (sumz ch)) [sumz ch] false finalize
         | BLazy ch false => Responds ROk (Some (sumz ch)) [sumz ch] false finalize
-        | BLazy ch true => Escapes OtherExn                (* not inside any try *)
+        | BLazy ch true => handle_error r FOther           (* except Exception: Fault('Server') *)
         end
   end.
 
